@@ -119,7 +119,7 @@ def signature(line, impl_line):
 
 def oracle(line, impl_line):
     o = parse_out(impl_line)
-    if o is None or o[0] == [888888]:
+    if o is None or o[0] == [18446744073710440504]:
         return "connection task crashed or panicked"
     if o[0][0] == 1:
         cfg, rs, ws, segs, scripts = C07.decode_case(line)
